@@ -17,7 +17,7 @@ import (
 
 func replayActs() Acts {
 	return Acts{Pegnet: 120, GradingV2: 121, TxConv: 122, PegPricing: 123, OneWayFCT: 124, ConvLimit: 125, PegFloat: 125, RCDE: 128, V4: 128,
-		V20: 134, DevRewards: 140, SprSig: 140, OneWaySmall: 150, V202: 150, V204: 160, V204Burn: 170, PIP10: 400}
+		V20: 134, DevRewards: 140, SprSig: 140, OneWaySmall: 150, V202: 150, V204: 160, V204Burn: 170, PIP10: 250}
 }
 
 func scenReplayMP(rep *Report, tier string, seed int64) {
@@ -30,6 +30,20 @@ func scenReplayMP(rep *Report, tier string, seed int64) {
 	ref, ok := buildReference(rep, s, g, dir, s.Acts.Pegnet+1, tip, func(w *World, h uint32) *BlockSpec {
 		a := s.Acts
 		b := &BlockSpec{Height: h, Time: BlockTime(h)}
+		// from shortly before PIP-10 on, pFCT rises and pXBT falls block by block, and the tied
+		// holders convert pFCT into pXBT: both rolling averages bind (min on the source, max on the
+		// destination), so the credited amounts depend on the averaging window
+		if h >= a.PIP10-12 {
+			g.Rates["FCT"] += g.Rates["FCT"] / 30
+			g.Rates["XBT"] -= g.Rates["XBT"] / 40
+		}
+		if h >= a.PIP10+2 {
+			u := g.Users[int(h)%4]
+			if bal := w.Balance(u.FA(), fat2.PTickerFCT); bal > 1e6 {
+				b.TX = append(b.TX, g.Batch(h, u, []fat2.Transaction{Conversion(u.FA(), fat2.PTickerFCT, bal/50, fat2.PTickerXBT)}))
+				rep.Count("replay:averaged-conversion")
+			}
+		}
 		ver := OPRVersionAt(a, h)
 		n := 25
 		if ver == 1 {
@@ -88,6 +102,30 @@ func scenReplayMP(rep *Report, tier string, seed int64) {
 			return
 		}
 		dumps = append(dumps, d)
+		os.RemoveAll(cdir)
+	}
+	// one more replay, computed by TWO processes in turn: the first stops (cleanly) after a height
+	// in the averaging era, the second continues on the same database. The chain has no ungraded
+	// block, so nothing a process keeps in memory may show in the result.
+	{
+		cdir, _ := ioutil.TempDir(dir, "two")
+		split := s.Acts.PIP10 + 20
+		code, out := runChild("child-sync", "-chain", ref.ChainFn, "-dir", cdir, "-upto", fmt.Sprint(split))
+		if code == 0 {
+			code, out = runChild("child-sync", "-chain", ref.ChainFn, "-dir", cdir, "-upto", fmt.Sprint(tip))
+		}
+		rep.Traces++
+		if code != 0 {
+			rep.Violate("replay:process-failed", fmt.Sprintf("the two-session replay could not complete: %.300s", out), "")
+		} else if d, err := DumpDB(filepath.Join(cdir, "sql.db.v4")); err == nil {
+			rep.Case("two-sessions", true)
+			if diff := FirstDiff(dropBackfill(d), dropBackfill(dumps[0])); diff != "" {
+				path := WriteReplay(rep.Property, "replaymp-two-sessions", Replay{Property: rep.Property, Scenario: "replaymp", Seed: seed, Setup: s,
+					What:   fmt.Sprintf("the chain replayed by two processes in turn (the second taking over after height %d) gives a different ledger than one process", split),
+					Detail: []string{diff}, Blocks: ChainJSON(ref.Chain)})
+				rep.Violate("replay:ledger-differs:two-sessions", diff, path)
+			}
+		}
 		os.RemoveAll(cdir)
 	}
 	stakeTx := []string{fmt.Sprintf("%064d", 288), fmt.Sprintf("%064d", 144)}
